@@ -163,6 +163,34 @@ def bag_key_rule(repo, rep, r8):
                             f"re-serialises differently and its NaN cell no longer merges with the original's", stmt=f"bag key {norm(n)[:60]}")
 
 
+def integer_key_rule(repo, rep, prims):
+    """R4.10: integer dict keys are written with str(i); the only exact inverse on the whole index range (the saturated bins
+    +-(2**63-1) included) is int(text).  A reader that parses the key text through float() rounds every index beyond 2**53."""
+    r10 = rep.rule("R4.10", "integer keys of a JSON object are parsed with int(text) directly, never through float()", floor=1)
+    for c in prims:
+        rd = repo.own_method(c, "fromJsonFragment") if "fromJsonFragment" in c.methods else None
+        if rd is None:
+            continue
+        for n in walk_local_stmt(rd.node):
+            keys = []
+            if isinstance(n, ast.DictComp):
+                keys.append(n.key)
+            elif isinstance(n, ast.Assign):
+                keys += [t.slice for t in n.targets if isinstance(t, ast.Subscript)]
+            for k in keys:
+                for call in ast.walk(k):
+                    if isinstance(call, ast.Call) and isinstance(call.func, ast.Name) and call.func.id == "int" and call.args:
+                        inner = [x for x in ast.walk(call.args[0]) if isinstance(x, ast.Call) and isinstance(x.func, ast.Name)
+                                 and x.func.id in ("float", "round")] + [x for x in ast.walk(call.args[0]) if isinstance(x, ast.BinOp)]
+                        ok = not inner
+                        r10.ob(ok, f"{c.name}.fromJsonFragment: key `{ast.unparse(k)[:50]}`")
+                        if not ok:
+                            rep.finding("R4.10", rd, k, f"the integer key of the reloaded dict is computed as `{ast.unparse(k)}`: going through a float "
+                                        f"rounds indexes beyond 2**53 - the saturated bins +-(2**63-1) that hold +-inf come back under another "
+                                        f"key (2**63, or -2**63 which is the NaN index), so the reloaded container differs from the original and "
+                                        f"merges put the same data into separate bins", stmt=f"integer key through float: {ast.unparse(k)[:40]}")
+
+
 def run(repo, rep, tier):
     rep.extra["explanation"] = (
         "Agreement analysis between each toJsonFragment (writer) and fromJsonFragment -> ed -> __init__ (reader) of the 19 "
@@ -197,6 +225,7 @@ def run(repo, rep, tier):
     bag_key_rule(repo, rep, r8)
     # the reloaded container's quantity name is written onto its own, fresh function object (never onto a shared default)
     rep.borrow(repo, "C06", {"R6.5": ("R4.9", "the name read from JSON is written onto a function object created for this container alone", 14)})
+    integer_key_rule(repo, rep, prims)
     r7 = rep.rule("R4.7", "numbers written into serialised fields by _numpy are Python floats (float()/int() applied to numpy reductions)", floor=20)
     for c in prims:
         numpy_scalar_rule(repo, rep, r7, c, models[c.name])
@@ -481,6 +510,19 @@ def tags_and_names(repo, rep, r3, c, m, wf, wkeys, rm):
             if not ok:
                 rep.finding("R4.3", rm.f, n, f"`{dw.path}` carries its own name but the reader overrides it with `{ast.unparse(name_arg)}`",
                             stmt=f"name override of {dw.path}")
+        else:
+            # the writer decides at run time whether the child's name is written (e.g. forwards its own suppressName), but the
+            # reader's choice (a `:name` key or None) is fixed: one of the two cases loses or overrides the name
+            cc = getattr(dw, "child_call", None)
+            arg = cc.args[0] if cc is not None and cc.args else None
+            ok = arg is None
+            r3.ob(ok, f"{c.name}: `{dw.path}`: name suppression of the child is a constant")
+            if not ok:
+                wf = repo.own_method(c, "toJsonFragment")
+                rep.finding("R4.3", wf, cc, f"the child under `{dw.path}` is written with suppressName=`{ast.unparse(arg)}` (not a constant), but the "
+                            f"reader always passes `{ast.unparse(name_arg) if name_arg is not None else 'nothing'}` as nameFromParent: when the "
+                            f"argument is true the child's quantity name is dropped from the document and never restored",
+                            stmt=f"name suppression of {dw.path} not constant")
 
 
 def registry_rules(repo, rep, r4, prims, reg):
